@@ -244,7 +244,7 @@ def decode(ctx, rep):
     a_src = strip_refs(b.origin(dl[1]["args"][1]))
     rep.check("R4.2", "length-of-src", a_src == src, "decode_length must inspect the caller's buffer (found %s)" % (a_src,), b.loc(dl[1]["line"]), nontrivial=False)
     tr = b.try_of_call(dl[0])
-    rep.check("R4.2", "length-error-propagated", tr is not None and b.ret_kinds(tr[3]) == {"residual"}, "a framing error must be returned", b.loc(dl[1]["line"]))
+    rep.check("R4.2", "length-error-propagated", (tr is not None and b.ret_kinds(tr[3]) == {"residual"}) or b.error_returned(dl[0]), "a framing error must be returned", b.loc(dl[1]["line"]))
     # split_to(src, n) with n the Some payload of decode_length()?
     s0 = strip_refs(b.origin(st[1]["args"][0]))
     n = b.origin(st[1]["args"][1])
@@ -292,20 +292,28 @@ def decode(ctx, rep):
         from props.c03_mir import const_array_len
         ca = const_array_len(ctx, a1[3][0])
         one = ca is not None and ca[0] == 1
-    rep.check("R4.2", "skip-size-byte", a0[0] == "call" and a0[4] == st[0] and one,
+    via_a, clean_a = b.derives_via(b.origin(ad[1]["args"][0]), st[0], forbid=src)
+    rep.check("R4.2", "skip-size-byte", via_a and clean_a and one,
               "the size byte must be skipped with advance(1) on the split-off frame (found %s, %s)" % (fmt_origin(a0), fmt_origin(a1)), b.loc(ad[1]["line"]))
     # cursor over the frame, not over src
     c0 = strip_refs(b.origin(cn[1]["args"][0]))
-    rep.check("R4.2", "reader-over-frame", c0[0] == "call" and c0[4] == st[0],
+    via_c, clean_c = b.derives_via(c0, st[0], forbid=src)
+    rep.check("R4.2", "reader-over-frame", via_c and clean_c,
               "the packet reader must be built over the split-off frame (found %s): reading from the connection buffer could run past the announced frame" % fmt_origin(c0),
               b.loc(cn[1]["line"]), sample={"cursor_over": fmt_origin(c0)})
     p0 = strip_refs(b.origin(pr[1]["args"][0]))
-    rep.check("R4.2", "packet-from-cursor", p0[0] == "call" and p0[4] == cn[0], "Packet::read must read from that cursor (found %s)" % fmt_origin(p0), b.loc(pr[1]["line"]))
+    via_p, _c = b.derives_via(p0, cn[0])
+    rep.check("R4.2", "packet-from-cursor", via_p, "Packet::read must read from that cursor (found %s)" % fmt_origin(p0), b.loc(pr[1]["line"]))
     order = [dl[0], st[0], ad[0], cn[0], pr[0]]
-    rep.check("R4.2", "order", all(b.dominates(order[i], order[i + 1]) for i in range(len(order) - 1)),
+
+    def must_pass(x, y):
+        """every feasible path from the entry to y goes through x (dominance, or - after combinators were expanded - the
+        variant-sensitive version of it: y is unreachable when x is removed)"""
+        return b.dominates(x, y) or y not in b.reach_v(avoid_blocks={x})
+    rep.check("R4.2", "order", all(must_pass(order[i], order[i + 1]) for i in range(len(order) - 1)),
               "decode_length -> split_to -> advance -> Cursor::new -> Packet::read must be enforced by dominance (blocks %s)" % order, b.loc())
     trp = b.try_of_call(pr[0])
-    rep.check("R4.2", "decode-error-after-removal", trp is not None and (b.ret_kinds(trp[3]) == {"residual"} or b.error_returned(pr[0])) and b.dominates(st[0], pr[0]),
+    rep.check("R4.2", "decode-error-after-removal", trp is not None and (b.ret_kinds(trp[3]) == {"residual"} or b.error_returned(pr[0])) and must_pass(st[0], pr[0]),
               "a packet decode error must be returned after the frame has been removed", b.loc(pr[1]["line"]))
     rep.floor("R4.2", 10)
 
